@@ -501,6 +501,7 @@ func verifFDIsName(f *os.File, name string) bool {
 	return err1 == nil && err2 == nil && os.SameFile(a, b)
 }
 func verifNoLocksHeld() bool { return true } // not observable natively
+func verifHeldExclusive() int { return 1 << 20 }
 
 var verifStdFiles []*os.File
 
